@@ -100,3 +100,17 @@ func msgName(msg []byte) string {
 }
 
 func eq(a, b []byte) bool { return bytes.Equal(a, b) }
+
+// deliverRecycled calls Session.Deliver with a transport buffer that is overwritten as soon as the call
+// returns: a session that wants to remember an incoming message has to copy it.
+func deliverRecycled(s *p2pke.Session, msg []byte, now time.Time) (bool, []byte, error) {
+	wire := append([]byte{}, msg...)
+	isApp, out, err := s.Deliver(nil, wire, now)
+	if out != nil {
+		out = append([]byte{}, out...)
+	}
+	for i := range wire {
+		wire[i] = 0xDD
+	}
+	return isApp, out, err
+}
